@@ -84,6 +84,7 @@ class HandlerTable:
     """singledispatchmethod registrations of Formatter.__call__ in one backend module."""
 
     def __init__(self, repo: Repo, modname: str):
+        self.repo = repo
         self.mod: Module = repo.mod(modname)
         self.table: dict[str, ast.FunctionDef] = {}
         self.default: ast.FunctionDef | None = None
@@ -304,6 +305,14 @@ class Eval:
                     return v
                 if e.attr == "name":
                     return Str([Atom(base.tag + ".name")])
+                # any other class-level constant of the node's class (looked up through its bases in lnodes.py)
+                try:
+                    from .lnodes_model import LNODES as _LN
+                    cv = self.table.repo.class_attr(self.table.repo.mod(_LN), base.cls.name, e.attr)
+                except Exception:
+                    cv = None
+                if isinstance(cv, ast.Constant):
+                    return cv.value
                 raise AnalysisError(f"fmt_eval: attribute {e.attr} of {base.cls.name} not modelled")
             raise AnalysisError(f"fmt_eval: attribute on non-node `{ast.unparse(e)}`")
         if isinstance(e, ast.Subscript):
